@@ -81,6 +81,14 @@ def chain_walk(run, F, PV, C):
     loops = [n for n in A.own_nodes(fn) if isinstance(n, ast.While) and any(n is x for x in ast.walk(tloop))]
     valid = [l for l in loops if any(ivc is x for x in ast.walk(l))]
     climb = [l for l in loops if l not in valid and any(isinstance(x, ast.Attribute) and x.attr == "signed_by" for x in ast.walk(l))]
+    vfors = [n for n in A.own_nodes(fn) if isinstance(n, ast.For) and n is not tloop and any(n is x for x in ast.walk(tloop)) and any(ivc is x for x in ast.walk(n))
+             and isinstance(n.iter, ast.Call) and norm(n.iter.func) == "reversed" and len(n.iter.args) == 1 and isinstance(n.iter.args[0], ast.Name)
+             and isinstance(n.target, ast.Name)]
+    if not valid and len(climb) == 1 and len(vfors) == 1:
+        # the other common shape: the whole path is collected in a list (top element included) and verified with `for e in reversed(path)`
+        RES = _chain_walk_list(run, fn, g, C, tloop, TGT, ivc, climb[0], vfors[0], root_param)
+        _chain_walk_state(run, fn, tloop, RES)
+        return
     run.require(len(valid) == 1 and len(climb) == 1, "validate_and_get_values: expected one `while` climbing signed_by and one `while` around is_valid "
                 f"inside the target loop, found {len(climb)} / {len(valid)} (idiom not understood)")
     climb, valid = climb[0], valid[0]
@@ -229,6 +237,154 @@ def chain_walk(run, F, PV, C):
                           where=fn.loc(valid), message=f"the walk down continues with `{norm(nxt) if nxt is not None else X + ' (unchanged)'}`, not with `{CH}.pop()`")
     run.floor("R1", "decision-table cases of the two loops", n_cases, 5)
     # (a verdict written after the loop shows as a second store on the `leave` rows above)
+    _chain_walk_state(run, fn, tloop, RES)
+
+
+def _chain_walk_list(run, fn, g, C, tloop, TGT, ivc, climb, vfor, root_param):
+    """The chain walk written over a list holding the whole path: target element first, the element signed by the root last."""
+    P, A = run.P, run.A
+    from sa.decide import subst
+    X, Y, L = vfor.target.id, ivc.args[0].id, vfor.iter.args[0].id
+    run.require(isinstance(ivc.func.value, ast.Name) and ivc.func.value.id == X, "validate_and_get_values: is_valid is not called on the element the loop visits (idiom not understood)")
+    ch, ca = _while_nodes(g, climb)
+    run.require(ch is not None, "validate_and_get_values: climb loop structure not understood")
+    fh = [n for n in g.nodes if n.kind == "for" and n.ast is tloop]
+    ft = [n for n in g.nodes if n.kind == "T" and n.note == "has-item" and n.cond in fh]
+    vh = [n for n in g.nodes if n.kind == "for" and n.ast is vfor]
+    run.require(len(fh) == 1 and len(ft) == 1 and len(vh) == 1, "validate_and_get_values: loop structure not understood")
+    v_item = [n for n in g.nodes if n.kind == "T" and n.note == "has-item" and n.cond is vh[0]]
+    v_done = [n for n in g.nodes if n.kind == "F" and n.note == "exhausted" and n.cond is vh[0]]
+    run.require(len(v_item) == 1 and len(v_done) == 1, "validate_and_get_values: validation loop edges not found")
+    state = {}
+
+    def is_name(e, nm):
+        return isinstance(e, ast.Name) and e.id == nm
+
+    def climb_atom(e):
+        cp = cmp_parts(e)
+        if cp is None:
+            return None
+        l, op, r = cp
+        if op in ("==", "!=", "is", "is not"):
+            for a, b in ((l, r), (r, l)):
+                if norm(b) == "self.ROOT_ELEMENT" and isinstance(a, ast.Attribute) and a.attr == "signed_by":
+                    cur = norm(a.value)
+                    if cur == f"{L}[-1]" or isinstance(a.value, ast.Name):
+                        if state.setdefault("CUR", cur) == cur:
+                            return ("ROOT", op in ("==", "is"))
+        return None
+    n_cases = 0
+    W = Walker(A, fn, C, climb_atom, stop_at_for=True)
+    for lf in W.walk(ch, stops={ch, ca}):
+        kind = "next" if lf.kind == "stop" and lf.node is ch else ("leave" if lf.kind == "stop" and lf.node is ca else f"{lf.kind} at line {lf.node.lineno}")
+        CUR = state.get("CUR")
+        pushes = [v for k, st, v in lf.effects if k == "expr" and isinstance(v, ast.Call) and call_name(v) == "append" and is_name(v.func.value, L)]
+        others = [st for k, st, v in lf.effects if k in ("store", "delete", "aug") or (k == "expr" and v not in pushes and isinstance(v, ast.Call)
+                                                                                      and call_name(v) in ("pop", "append", "extend", "insert", "clear", "remove", "reverse", "sort"))]
+        for v in completions({k: b for k, b in lf.pc.items() if k == "ROOT"}, ["ROOT"]):
+            n_cases += 1
+            if v["ROOT"]:
+                cur_changed = CUR is not None and CUR != f"{L}[-1]" and (CUR in lf.env or CUR in lf.bind)
+                run.check("R1", kind == "leave" and not pushes and not others and not cur_changed and "ROOT" in lf.pc, "[ROOT] -> the climb ends with nothing changed",
+                          key="validate_and_get_values|climb|root-exit", where=fn.loc(climb),
+                          message=f"when the element is signed by the root the climb does `{kind}` (pushes: {len(pushes)}); it must simply end")
+            elif CUR == f"{L}[-1]":
+                okp = len(pushes) == 1 and len(pushes[0].args) == 1 and norm(pushes[0].args[0]) == f"self._elements[{L}[-1].signed_by]"
+                run.check("R1", kind == "next" and okp and not others, "[not ROOT] -> the certifier of the last element is appended", key="validate_and_get_values|climb|push",
+                          where=fn.loc(climb), message=f"a climb step does `{kind}` and appends {[norm(p) for p in pushes]} (other effects: {[norm(o)[:40] for o in others]}); expected "
+                          f"exactly {L}.append(self._elements[{L}[-1].signed_by])")
+            else:
+                okp = len(pushes) == 1 and len(pushes[0].args) == 1 and norm(pushes[0].args[0]) == CUR
+                step = lf.env.get(CUR, lf.bind.get(CUR)) if CUR else None
+                oks = step is not None and norm(step) == f"self._elements[{CUR}.signed_by]"
+                run.check("R1", kind == "next" and okp and oks and not others, "[not ROOT] -> the element visited is appended, then its certifier is visited", key="validate_and_get_values|climb|push",
+                          where=fn.loc(climb), message=f"a climb step does `{kind}`, appends {[norm(p) for p in pushes]} and moves to `{norm(step) if step is not None else CUR}`; expected "
+                          f"{L}.append({CUR}) then {CUR} = self._elements[{CUR}.signed_by]")
+    CUR = state.get("CUR")
+    run.require(CUR is not None, "validate_and_get_values: the climb's test of signed_by against the root was not identified (idiom not understood)")
+    cursor = CUR != f"{L}[-1]"
+    # per target: the list starts as [] (cursor form: cursor = the target's element) or as [the target's element]
+    for lf in Walker(A, fn, C, lambda e: None).walk(ft[0], stops={ch}):
+        run.check("R1", lf.kind == "stop", "every target reaches the climb", key="validate_and_get_values|init|reaches-climb", where=fn.loc(tloop),
+                  message=f"for some target the method does `{lf.kind}` at line {lf.node.lineno} before climbing")
+        if lf.kind != "stop":
+            continue
+        wants = ((L, "[]"), (CUR, f"self._elements[{TGT}]")) if cursor else ((L, f"[self._elements[{TGT}]]"),)
+        for nm, want in wants:
+            got = lf.env.get(nm, lf.bind.get(nm))
+            run.check("R1", got is not None and norm(got) == want, f"`{nm} = {want}` for every target", key=f"validate_and_get_values|init|{'chain' if nm == L else 'current'}",
+                      where=fn.loc(), message=f"`{nm}` is `{norm(got) if got is not None else 'left over from the previous target'}` when the climb for a target starts, not `{want}`")
+    # between the loops: (cursor form) the top element joins the list; the first certifier is the caller's root of trust
+    for lf in Walker(A, fn, C, lambda e: None, stop_at_for=True).walk(ca, stops={vh[0]}):
+        run.check("R1", lf.kind == "stop" and lf.node is vh[0], "the climb is followed by the validation loop", key="validate_and_get_values|handover|reaches-validation", where=fn.loc(),
+                  message=f"after the climb the method does `{lf.kind}` at line {lf.node.lineno} instead of validating")
+        if lf.kind != "stop":
+            continue
+        got = lf.env.get(Y, lf.bind.get(Y))
+        run.check("R1", got is not None and norm(got) == root_param, "the first certifier is the root of trust given by the caller",
+                  key="validate_and_get_values|current_certifier|root-init", where=fn.loc(),
+                  message=f"validation of a target starts with certifier `{norm(got) if got is not None else Y + ' (left over from the previous target)'}`, not with the `{root_param}` parameter")
+        lcalls = [norm(v) for k, st, v in lf.effects if k == "expr" and isinstance(v, ast.Call) and isinstance(v.func, ast.Attribute) and is_name(v.func.value, L)]
+        want_calls = [f"{L}.append({CUR})"] if cursor else []
+        rebound = [nm for nm in ((L, CUR) if cursor else (L,)) if nm in lf.env or nm in lf.bind]
+        run.check("R1", lcalls == want_calls and not rebound, "between the loops the path is completed with the top element (cursor form) and otherwise untouched",
+                  key="validate_and_get_values|handover|untouched", where=fn.loc(),
+                  message=f"between the climb and the validation the path list sees {lcalls} (re-bound: {rebound}); expected {want_calls}: the element signed by the root would be "
+                          "missing from (or twice in) the path that is verified")
+    # the verdict dict
+    rets = [n for n in A.own_nodes(fn) if isinstance(n, ast.Return)]
+    run.require(len(rets) == 1 and isinstance(rets[0].value, ast.Name), "validate_and_get_values: does not end in `return <verdict dict>` (idiom not understood)")
+    RES = rets[0].value.id
+
+    def stores(lf):
+        out = []
+        for k, st, v in lf.effects:
+            if k == "assign" and any(isinstance(t, ast.Subscript) and is_name(t.value, RES) for t in st.targets):
+                for _ in range(4):
+                    if isinstance(v, ast.Name) and v.id in lf.bind:
+                        v = lf.bind[v.id]
+                    elif isinstance(v, ast.Name) and v.id in lf.env:
+                        v = lf.env[v.id]
+                    else:
+                        break
+                out.append((st, lf.deep(v, stop=(X, Y, L))))
+        return out
+
+    def valid_atom(e):
+        if isinstance(e, ast.Call) and call_name(e) == "is_valid" and norm(e) == f"{X}.is_valid({Y})":
+            return ("V", True)
+        return None
+    for lf in Walker(A, fn, C, valid_atom, stop_at_for=True).walk(v_item[0], stops={vh[0], fh[0]}):
+        kind = "next" if lf.kind == "stop" and lf.node is vh[0] else ("leave" if lf.kind == "stop" and lf.node is fh[0] else f"{lf.kind} at line {lf.node.lineno}")
+        sts = stores(lf)
+        for v in completions({k: b for k, b in lf.pc.items() if k == "V"}, ["V"]):
+            n_cases += 1
+            if not v["V"]:
+                ok = kind == "leave" and len(sts) == 1 and norm(sts[0][0].targets[0]) == f"{RES}[{TGT}]" and norm(sts[0][1]) == f"(False, {X}.name)" and "V" in lf.pc
+                run.check("R1", ok, "[not V] -> (False, failing element's name), stop", key="validate_and_get_values|invalid-store", where=fn.loc(vfor),
+                          message=f"when an element does not verify the walk does `{kind}` and stores {[norm(s[1])[:60] for s in sts]}; it must store (False, {X}.name) for the target and stop")
+            else:
+                cert = lf.env.get(Y, lf.bind.get(Y))
+                run.check("R1", kind == "next" and not sts and "V" in lf.pc, "[V] -> go on to the next element without a verdict", key="validate_and_get_values|valid-store|leaf", where=fn.loc(vfor),
+                          message=f"after an element verified the walk does `{kind}` and stores {[norm(s[1])[:60] for s in sts]}: a target can be reported valid before its own element was verified")
+                run.check("R1", cert is not None and is_name(cert, X), "the verified element becomes the next certifier", key="validate_and_get_values|advance|certifier",
+                          where=fn.loc(vfor), message=f"after an element verified the next certifier is `{norm(cert) if cert is not None else Y + ' (unchanged)'}`, not the element just verified")
+    # all elements verified: the verdict is the leaf's value (the leaf is the first element of the path = the last one visited)
+    for lf in Walker(A, fn, C, lambda e: None, stop_at_for=True).walk(v_done[0], stops={fh[0]}):
+        n_cases += 1
+        sts = stores(lf)
+        kind = "leave" if lf.kind == "stop" and lf.node is fh[0] else f"{lf.kind} at line {lf.node.lineno}"
+        okv = kind == "leave" and len(sts) == 1 and norm(sts[0][0].targets[0]) == f"{RES}[{TGT}]" \
+            and norm(sts[0][1]) in (f"(True, {X}.get_value(), {X}.get_tweak())", f"(True, {L}[0].get_value(), {L}[0].get_tweak())")
+        run.check("R1", okv, "[every element verified] -> (True, value, tweak) of the leaf", key="validate_and_get_values|valid-store", where=fn.loc(vfor),
+                  message=f"when every element of the path verified the walk does `{kind}` and stores {[norm(s[1])[:70] for s in sts]}; it must store (True, <leaf>.get_value(), "
+                          f"<leaf>.get_tweak()) with the leaf = {L}[0] (= the last element visited)")
+    run.floor("R1", "decision-table cases of the two loops", n_cases, 5)
+    return RES
+
+
+def _chain_walk_state(run, fn, tloop, RES):
+    P, A = run.P, run.A
     # ---- state
     _purity(run, fn, {"_targets", "_elements", "ROOT_ELEMENT"}, "validate_and_get_values")
     rdefs = defs_of(A, fn, RES)
